@@ -69,6 +69,14 @@ def model_rdm(case):
     m = case['model']
     d0 = sq_dists(m['points'], m['scale'])
     if m['kind'] == 'fixed':
+        if (len(m['points']) + case['n_channel']) % 2 == 0:
+            # the model RDM handed over as an RDMs object whose measure label says what it holds in
+            # the user's words (movie frames are labelled 'euclidean' although squared): the
+            # prediction is the numbers, whatever the label
+            from rsatoolbox.rdm import RDMs
+            label = ['euclidean', 'Euclidean', 'squared euclidean', None][len(m['points']) % 4]
+            obj = RDMs(np.array([d0], dtype=float), dissimilarity_measure=label)
+            return ModelFixed('sim_model', obj), None, np.array(d0)
         return ModelFixed('sim_model', np.array(d0)), None, np.array(d0)
     d1 = sq_dists(m['points2'], m['scale'])
     if m['kind'] == 'fixed_multi':
